@@ -587,6 +587,7 @@ func init() {
 		}
 		runSessions(r, cases, outputDiffers)
 		loopVarNames(r)
+		loopHeaderBlanks(r)
 		indexedRangeSource(r)
 	}
 	props["C14"] = func(r *Run) {
@@ -929,6 +930,39 @@ func loopVarNames(r *Run) {
 			if bad != "" || outs[0].ErrStr() != outs[1].ErrStr() || !bytes.Equal(outs[0].Out, outs[1].Out) {
 				r.Violate(sig, "a loop whose variables are named "+names[0]+" / "+names[1]+" renders differently from the same loop with plain names",
 					map[string]any{"source": mk(names[0], names[1]), "plain_source": mk("kk", "vv"), "output": string(outs[0].Out), "plain_output": string(outs[1].Out), "error": outs[0].ErrStr(), "problem": bad})
+			}
+		}
+	}
+}
+
+// loopHeaderBlanks: the three parts of a counter-loop header are separated by semicolons; blanks around a semicolon
+// belong to neither part (a relation on the real engine alone: every spelling renders what the plain one renders;
+// repair: `i < 3 ; i++` kept the blank in the bound, which was then no number — the render failed).
+func loopHeaderBlanks(r *Run) {
+	plain := `{% for i := 0; i < N; i++ sep , %}{%= i %}{% endfor %}`
+	for _, bound := range []string{"3", "n", "lim"} {
+		for _, hdr := range []string{"for i := 0; i < N; i++", "for i := 0; i < N ; i++", "for i := 0 ; i < N; i++", "for i := 0 ; i < N ; i++", "for i:=0;i<N;i++", "for i := 0;  i < N  ;  i++",
+			"for i := 0; i <N ; i++", "for i=0; i < N ; i++"} {
+			src := `{% ` + strings.ReplaceAll(hdr, "N", bound) + ` sep , %}{%= i %}{% endfor %}`
+			var outs [2]rendered
+			bad := ""
+			for x, s := range []string{src, strings.ReplaceAll(plain, "N", bound)} {
+				key, err, pan := regTpl(s, true)
+				if err != nil || pan != "" {
+					bad = fmt.Sprintf("Parse rejects %s: %v %s", s, err, pan)
+					break
+				}
+				ctx := dyntpl.NewCtx()
+				ctx.SetStatic("n", 3)
+				ctx.SetStatic("lim", int64(2))
+				outs[x] = renderSafe(key, ctx)
+			}
+			sig := "loop-header-blanks " + src
+			r.Count(sig, true)
+			r.Dist["loop-header-blanks"]++
+			if bad != "" || outs[0].ErrStr() != outs[1].ErrStr() || !bytes.Equal(outs[0].Out, outs[1].Out) || len(outs[1].Out) == 0 {
+				r.Violate(sig, "a counter loop whose header has blanks around a semicolon renders differently from the same loop spelled plainly",
+					map[string]any{"source": src, "output": string(outs[0].Out), "plain_output": string(outs[1].Out), "error": outs[0].ErrStr(), "plain_error": outs[1].ErrStr(), "problem": bad})
 			}
 		}
 	}
